@@ -3,6 +3,7 @@ import KoordVerif.Model.C11
 import KoordVerif.Model.C11Rounds
 import KoordVerif.Model.C11Decode
 import KoordVerif.Model.C11E2E
+import KoordVerif.Model.C11Metric
 /-
 Driver for C11.  A case is a list of declaration lines followed by one command line.
 
@@ -31,6 +32,11 @@ Driver for C11.  A case is a list of declaration lines followed by one command l
  output: `evict <task> <pod> <ok>` per Evict call, `rel …`, `newly <0|1>`, `api <number of API calls>`,
          `done <task> <0|1>` per task (EvictTaskCheck)
    iscached <now> <pod>*            ->  `cached <pod>*`  (IsPodEvicted, in the given order)
+
+ end-to-end harnesses, after the pod's `rawpod` line (Model/C11Metric.lean):
+   metric <podId> <queryErr> <window ms> <n> (<age ms> <milli>)*n     the pod's usage series in storage order
+ output: `last <podId> none` | `last <podId> <milli>` (CollectPodMetricLast); the pod's hasMetric / used are
+         REPLACED by this result for the rest of the case
 -/
 namespace KoordVerif.C11
 open KoordVerif.Proto
@@ -332,6 +338,18 @@ def runCase (lines : List String) : List String :=
             match parseRawPod xs with
             | some rp => go { a with pods := decodePod rp :: a.pods, raws := rp :: a.raws } out rest
             | none => out ++ ["bad-op"]
+          | "metric" =>
+            match xs with
+            | id :: qerr :: window :: n :: pts =>
+              if pts.length ≠ 2 * n.toNat ∨ id < 0 then out ++ ["bad-op"] else
+              let m := podMetricLast (qerr ≠ 0) window ((pairs pts).map fun p => { age := p.1, milli := p.2 })
+              let raws := a.raws.map fun rp => if rp.id = id.toNat then rp.withMetric m else rp
+              let pods := a.pods.map fun p => if p.id = id.toNat then { p with hasMetric := m.isSome, used := m.getD 0 } else p
+              let o := match m with
+                | none => s!"last {id} none"
+                | some v => s!"last {id} {v}"
+              go { a with raws := raws, pods := pods } (out ++ [o]) rest
+            | _ => out ++ ["bad-op"]
           | "e2emem" =>
             match runE2EMem a xs with
             | some o => go {} (out ++ o) rest
